@@ -264,6 +264,108 @@ def rewrite_R8_continue(text):
     return text
 
 
+
+def recv_start(toks, dot):
+    """index of the first token of the postfix-expression that ends right before toks[dot] (a `.`)"""
+    j = dot - 1
+    while True:
+        t = toks[j]
+        if t.text in (")", "]"):
+            # find matching open
+            depth, k = 0, j
+            while k >= 0:
+                if toks[k].text in CLOSE:
+                    depth += 1
+                elif toks[k].text in OPEN:
+                    depth -= 1
+                    if depth == 0:
+                        break
+                k -= 1
+            j = k - 1
+            # a call: the callee name precedes the paren
+            if toks[j].kind == "ident" or toks[j].text == ">":
+                continue
+            return j + 1
+        if t.kind in ("ident", "num") or t.text == "?":
+            if toks[j - 1].text in (".", "::"):
+                j -= 2
+                continue
+            return j
+        return j + 1
+
+
+def rewrite_ANF_chain(text, last_method, occurrence, nstages, proofs):
+    """R10: let-bind the last `nstages` method calls of a chain ending in `.last_method(..)` (A-normal form).
+    proofs: {stage_index: proof text placed after that stage's let}"""
+    toks = tokenize(text)
+    hits = [i for i, t in enumerate(toks) if t.text == last_method and toks[i - 1].text == "." and toks[i + 1].text == "("]
+    if occurrence >= len(hits):
+        raise Undecided(f"R10: no `.{last_method}(` #{occurrence}")
+    last = hits[occurrence]
+    end = match_close(toks, last + 1)
+    # collect the stage boundaries walking backwards: each stage is `.name(args)` (optionally `::<..>` not supported)
+    stages = []  # (dot_index, close_index)
+    dot = last - 1
+    close = end
+    for _ in range(nstages):
+        stages.append((dot, close))
+        # previous stage ends right before this dot
+        pc = dot - 1
+        if toks[pc].text != ")":
+            break
+        depth, k = 0, pc
+        while k >= 0:
+            if toks[k].text in CLOSE:
+                depth += 1
+            elif toks[k].text in OPEN:
+                depth -= 1
+                if depth == 0:
+                    break
+            k -= 1
+        if toks[k - 1].kind != "ident" or toks[k - 2].text != ".":
+            break
+        close = pc
+        dot = k - 2
+    stages.reverse()
+    if len(stages) != nstages:
+        raise Undecided(f"R10: chain has fewer than {nstages} method stages")
+    first_dot = stages[0][0]
+    start = recv_start(toks, first_dot)
+    recv = text[toks[start].start:toks[first_dot].start]
+    out = "{ "
+    prev = recv
+    for si, (d, c) in enumerate(stages):
+        call = text[toks[d].start:toks[c].end]
+        # hoist a closure argument into its own let so proofs can name it
+        op = d + 2
+        if toks[op + 1].text in ("|", "||") and si != len(stages) - 1:
+            clo = text[toks[op + 1].start:toks[c].start]
+            out += f"let __cl{si} = {clo}; "
+            call = text[toks[d].start:toks[op].end] + f"__cl{si})"
+        if si == len(stages) - 1:
+            out += f"{prev}{call} }}"
+        else:
+            out += f"let __c{si} = {prev}{call}; "
+            if si in proofs:
+                out += f"/*@B INJ chain{occurrence}#{si}*/ " + proofs[si] + " /*@E*/ "
+            prev = f"__c{si}"
+    return text[:toks[start].start] + out + text[toks[end].end:]
+
+
+
+def rewrite_ROOT(text, method, occurrence, fname, by_ref=True):
+    """R9: `RECV.method()` (root of an iterator chain on a std collection) -> `fname(&RECV)`: the prelude function carrying
+    the assumed contract of that std method, returning the Vec of items the iterator yields."""
+    toks = tokenize(text)
+    hits = [i for i, t in enumerate(toks) if t.text == method and toks[i - 1].text == "." and toks[i + 1].text == "(" and toks[i + 2].text == ")"]
+    if occurrence >= len(hits):
+        raise Undecided(f"R9: no `.{method}()` #{occurrence}")
+    i = hits[occurrence]
+    start = recv_start(toks, i - 1)
+    recv = text[toks[start].start:toks[i - 1].start]
+    return text[:toks[start].start] + f"{fname}({'&' if by_ref else ''}{recv.strip()})" + text[toks[i + 2].end:]
+
+
 def apply_rewrites(text, rewrites):
     for rw in rewrites:
         if rw[0] == "R4":
@@ -272,6 +374,10 @@ def apply_rewrites(text, rewrites):
             text = rewrite_R3_for_each(text, rw[1] if len(rw) > 1 else 0)
         elif rw[0] == "R8":
             text = rewrite_R8_continue(text)
+        elif rw[0] == "ROOT":
+            text = rewrite_ROOT(text, rw[1], rw[2], rw[3], rw[4] if len(rw) > 4 else True)
+        elif rw[0] == "ANF":
+            text = rewrite_ANF_chain(text, rw[1], rw[2], rw[3], rw[4] if len(rw) > 4 else {})
         elif rw[0] == "SUB":   # declared literal substitution (must match exactly once) -- reported in evidence
             old, new = rw[1], rw[2]
             if text.count(old) != 1:
